@@ -248,6 +248,7 @@ def run(prog, ctx):
     check_memo_invalidation(prog, ctx)
     check_freshness(prog, ctx)
     check_normalised_levels_from_structure(prog, ctx)
+    check_leaves_are_kept(prog, ctx)
 
     # ------------------------------------------------------------------ D4
     ft = None
@@ -318,6 +319,21 @@ def check_memo_invalidation(prog, ctx):
                                      and isinstance(x.func.value, ast.Name) and x.func.value.id == fi.self_name]
                             if stores or any(any(s2.attr == attr for s2 in R.self_stores(eg.methods[x.func.attr])) for x in calls if x.func.attr in eg.methods):
                                 memos.add(attr)
+    # the same idiom with a widened test (`if self.X is None or <other reason to recompute>:`): the body of an `if` whose test contains the
+    # `is None` comparison stores the attribute
+    for fi in eg.methods.values():
+        for iff in [x for x in walk_local(fi.node) if isinstance(x, ast.If)]:
+            for cmp_ in [y for y in ast.walk(iff.test) if isinstance(y, ast.Compare) and len(y.ops) == 1 and isinstance(y.ops[0], ast.Is)
+                         and isinstance(y.comparators[0], ast.Constant) and y.comparators[0].value is None]:
+                attr = R.self_attr(cmp_.left, fi.self_name)
+                if attr is None:
+                    continue
+                for st in iff.body:
+                    stores = [s_ for s_ in R.attribute_stores(st) if s_.attr == attr] if isinstance(st, ast.stmt) else []
+                    calls = [x for x in ast.walk(st) if isinstance(x, ast.Call) and isinstance(x.func, ast.Attribute)
+                             and isinstance(x.func.value, ast.Name) and x.func.value.id == fi.self_name]
+                    if stores or any(any(s2.attr == attr for s2 in R.self_stores(eg.methods[x.func.attr])) for x in calls if x.func.attr in eg.methods):
+                        memos.add(attr)
     ctx.floor("C11.D5", len(memos), 1, "lazily computed attributes of ExtrapolationGrid")
     for attr in sorted(memos):
         for name, fi in sorted(eg.methods.items()):
@@ -429,3 +445,35 @@ def check_normalised_levels_from_structure(prog, ctx):
                   "`%s`: the normalised levels of a container with several slices are derived from the tree levels of the global grid "
                   "(get_grid_levels) instead of from the container's own index structure" % src(rn.ast)[:100])
     ctx.floor("C11.D7", n, 1, "multi-slice return paths of get_normalized_grid_levels")
+
+
+def check_leaves_are_kept(prog, ctx):
+    """C11.D8: the balanced extrapolation collects, for every level, the leaves above that level together with the nodes on it
+    (`get_leafs_or_max_level_nodes`).  The recursive collection may descend into the children of a node only when the node is known
+    not to be a leaf: every path to a recursive call carries the fact `not node.is_leaf()`.  Otherwise a leaf above the level limit
+    (an adaptive, not complete tree) is replaced by its non-existent children, drops out of the level's rule, and the weights no longer
+    sum to the interval length."""
+    gn = prog.cls(EX + "GridNode")
+    cand = [f for name, f in gn.methods.items() if "get_leafs_or_max_level_nodes" in name and len(f.params) >= 2
+            and any(isinstance(x, ast.Call) and isinstance(x.func, ast.Attribute) and x.func.attr.endswith(name.lstrip("_")) for x in ast.walk(f.node))]
+    n = 0
+    for fi in cand:
+        node_p = fi.params[1]
+        tm = Terms(fi.node, max_depth=0)
+        c = cfg_of(fi)
+        leaf = ("call", ("a", ("n", node_p), "is_leaf"), (), ())
+        rec = [x for x in ast.walk(fi.node) if isinstance(x, ast.Call) and isinstance(x.func, ast.Attribute) and x.func.attr == fi.name
+               or (isinstance(x, ast.Call) and isinstance(x.func, ast.Attribute) and fi.name.endswith(x.func.attr) and x.func.attr.startswith("__"))]
+        for k, call in enumerate(rec):
+            cn = c.node_containing(call)
+            if cn is None:
+                continue
+            n += 1
+            ctx.touch(fi)
+            facts = [g for (g, gn_) in R.dominating_guards(fi, cn, tm) if gn_.kind == "test"]
+            ok = ("not", leaf) in facts
+            ctx.check(ok, "C11.D8", R.key_of(fi, "descend-only-below-inner-nodes#%d" % k), fi.loc(call),
+                      "the recursion descends into the children only of a node that is not a leaf",
+                      "`%s` is reached on a path that has not established `not %s.is_leaf()`: a leaf above the level limit is replaced by its "
+                      "(missing) children and drops out of the rule of that level" % (src(call)[:80], node_p))
+    ctx.floor("C11.D8", n, 1, "recursive descents of get_leafs_or_max_level_nodes")
